@@ -322,8 +322,13 @@ fn parse_struct_members(
 	while !tokens.consume_optional(BaseToken::BraceRight)
 	{
 		let member = parse_member(tokens, buffer)?;
-		tokens.consume(BaseToken::Comma)?;
 		buffer.push_list_item(member, &mut list);
+		// The comma after the last member is optional.
+		if !tokens.consume_optional(BaseToken::Comma)
+		{
+			tokens.consume(BaseToken::BraceRight)?;
+			break;
+		}
 	}
 	let start_of_list = buffer.push_end_of_list(list);
 	Ok(start_of_list)
